@@ -217,7 +217,7 @@ PROPS = {
     "C08": dict(
         level="proof", extra=["atomic_audit"], coq_files=["Properties/C08.v"],
         theorems={"Properties/C08.v": ["C08_conservation", "C08_in_flight", "C08_drops_only_where_allowed"]},
-        runs=MPMC_RUNS, keys=["r", "v", "p"], monitor=dict(id=8, runs=["mpmc-c0", "mpmc-c1", "mpmc-shared-c1"]),
+        runs=MPMC_RUNS, keys=["r", "v", "p"], monitor=dict(id=8, runs=["mpmc-c0", "mpmc-c1", "mpmc-c2", "mpmc-shared-c1"]),
         assumptions=[SCHED_NOTE, "values uniquely tagged"],
         level_text="Theorem over all histories (any number of send/receive futures, any capacity incl. 0, close, cancel, try-ops, shared handle drops): the conservation monitor over the observable trace holds - every observed movement (delivered / handed back / destroyed) concerns a value still in flight and removes it, nothing is left after teardown; the in-flight set of the trace equals buffer + values inside live send futures; values are destroyed only with their send future, by the last receiver's clear(), or at teardown. Correspondence on results, per-step value movements (drop-counting tagged payloads, double drops detected) and closed/len probes, for ArrayBuf, FixedHeapBuf, GrowingHeapBuf, borrowed and shared.",
         level_note="Tie to the code by differential execution on exhaustive k=2x2 (caps 0..2) spaces + random histories. " + SCHED_NOTE,
@@ -272,7 +272,7 @@ PROPS = {
     "C19": dict(
         level="proof", coq_files=["Properties/C19.v"],
         theorems={"Properties/C19.v": ["C19_refines_fifo", "C19_accessors", "C19_drop_exact", "C19_no_ub", "C19_array_indices"]},
-        runs=RB_RUNS, keys=["r", "v", "p"],
+        runs=RB_RUNS, keys=["r", "v", "p"], monitor=dict(id=19, runs=[r for r in RB_RUNS if r.endswith("-0")]),
         level_text="Theorems for ArrayBuf (indices + MaybeUninit slots), FixedHeapBuf and GrowingHeapBuf models, every capacity incl. 0: refinement to a FIFO list, accessors exact, drop returns exactly the stored elements once, no assertion failure / uninitialised read / overwrite under the can_push/is_empty discipline, index invariant with wrap-around. Correspondence: exhaustive push/pop/drop sequences for capacities 0..4 with drop-counting elements, plus a malformed stream whose expected observable is a panic.",
         level_note="VecDeque is trusted (modelled as a list). Miri is not used (different technique family).",
     ),
@@ -300,7 +300,7 @@ PROPS = {
         level="proof", extra=["atomic_audit"],
         coq_files=["Properties/C14.v"],
         theorems={"Properties/C14.v": ["C14_iff_latched", "C14_set_wakes_all", "C14_reset_inert", "C14_is_set", "C14_is_set_probe"]},
-        prims=["event"], keys=["r", "ws", "p"],
+        prims=["event"], keys=["r", "ws", "p"], monitor=dict(id=14, runs=["event-k3", "event-k3-set"]),
         assumptions=[SCHED_NOTE],
         level_text="Theorems over all histories (any number of futures, any waker choice): a poll completes iff the event is set now or was set since the future's first poll (tracker defined on the operations alone); set() wakes exactly the pending waiters oldest-first through their latest wakers; reset() is inert; is_set() tracks the last set/reset. The model is tied to the crate by exhaustive model-guided exploration (k=3 to a fixpoint, both lock flavours) and random histories comparing results, wake lists and is_set().",
         level_note="Kernel-checked for the Gallina model of EventState; the model/code tie is differential execution (bounded by explored histories); thread schedules covered only as interleavings of critical sections.",
